@@ -45,13 +45,15 @@ class IntervalLinear(object):
     @ivar initial:  Initial interval value, in seconds.
     @ivar factor:   multiplier for the next interval.
     @ivar bandwith: estimated bandwith in bytes/sec.
+    @ivar maxDelay: the interval stops growing once it has reached this value, in seconds.
     '''
     
-    def __init__(self, initial=2,  factor=2, bandwith=1):
+    def __init__(self, initial=2,  factor=2, bandwith=1, maxDelay=1024):
         '''Initialize interval object'''
         self.initial  = initial
         self.factor   = factor
         self.bandwith = bandwith
+        self.maxDelay = max(initial, maxDelay)
         self._k       = 1
         self._value   = self.initial
 
@@ -59,5 +61,9 @@ class IntervalLinear(object):
     def __call__(self, size):
         '''Call the interval to produce a new delay time taking into account the bandwith'''
         self._value = self.initial + (self._k*size)/self.bandwith
-        self._k    *= self.factor
+        # like Interval, stop backing off at some point: the multiplier lives as long
+        # as the request does (across every resumption of a persistent session)
+        # and would otherwise grow until it no longer fits in a float
+        if self._value < self.maxDelay:
+            self._k    *= self.factor
         return self._value + random.random()
